@@ -36,3 +36,44 @@ def scan(prog):
             elif src(left) in lowered:
                 out.append((f, n, False, f"`{src(n)[:70]}`: `{src(left)}` is looked up through .{lowered[src(left)]}() elsewhere in this function but compared here as given"))
     return out
+
+
+def scan_attributes(prog):
+    """[(function, node, ok, detail)]: class-level twin of `scan`.  If some method compares `self.A` with string literals
+    *as stored* (no normalisation at the comparison) while the option is accepted case-insensitively somewhere in the
+    class (`<x>.lower()` compared with literals where <x> is `self.A` or the value stored into it), then every store
+    `self.A = <value>` must store the normalised value."""
+    out = []
+    for c in prog.classes.values():
+        raw_cmp, norm_attr, stores = {}, set(), {}
+        for f in c.methods.values():
+            for n in walk_no_nested(f.node):
+                if isinstance(n, ast.Compare) and len(n.ops) == 1 and isinstance(n.ops[0], (ast.In, ast.NotIn, ast.Eq, ast.NotEq)):
+                    r = n.comparators[0]
+                    lits = (isinstance(r, (ast.List, ast.Tuple, ast.Set)) and r.elts and all(isinstance(e, ast.Constant) and isinstance(e.value, str) for e in r.elts)) or (isinstance(r, ast.Constant) and isinstance(r.value, str))
+                    if not lits:
+                        continue
+                    l = n.left
+                    if isinstance(l, ast.Attribute) and isinstance(l.value, ast.Name) and l.value.id == "self":
+                        raw_cmp.setdefault(l.attr, []).append((f, n))
+                    if isinstance(l, ast.Call) and isinstance(l.func, ast.Attribute) and l.func.attr in _NORM and not l.args:
+                        v = l.func.value
+                        if isinstance(v, ast.Attribute) and isinstance(v.value, ast.Name) and v.value.id == "self":
+                            norm_attr.add(v.attr)
+                        elif isinstance(v, ast.Name):
+                            norm_attr.add("param:" + v.id)
+                if isinstance(n, ast.Assign):
+                    for t in n.targets:
+                        if isinstance(t, ast.Attribute) and isinstance(t.value, ast.Name) and t.value.id == "self":
+                            stores.setdefault(t.attr, []).append((f, n))
+        for a, cmps in raw_cmp.items():
+            sts = stores.get(a, [])
+            # is the option accepted case-insensitively? (normalised comparison of self.A, or of the value stored into it)
+            insensitive = a in norm_attr or any(isinstance(s.value, ast.Name) and ("param:" + s.value.id) in norm_attr for f, s in sts) or any(isinstance(s.value, ast.Call) and isinstance(s.value.func, ast.Attribute) and s.value.func.attr in _NORM for f, s in sts)
+            if not insensitive:
+                continue
+            for f, s in sts:
+                v = s.value
+                ok = (isinstance(v, ast.Call) and isinstance(v.func, ast.Attribute) and v.func.attr in _NORM) or (isinstance(v, ast.Constant))
+                out.append((f, s, ok, f"`{src(s)[:60]}`; `self.{a}` is compared as stored in {sorted({g.short for g, _n in cmps})}" + ("" if ok else f": a spelling that passes the case-insensitive validation (e.g. 'LogT') takes the wrong branch there")))
+    return out
